@@ -508,7 +508,10 @@ def check_group(ctx, binary, g, check, tol, stats):
                 raise vlib.InfraError("property-mode validation rejected line %d of behaviour %d (%s)" % (v1[1], bad, g.label))
         if v[0] == "property":
             keys = v[2]
-            ok, info = confirm(ctx, binary, [dict(a="reset", cfg=cfgi, mode=g.mode, id=0, storm=0)] + script[1:], g.shape, g.mode, check, keys, tag=g.label + ".confirm", tol=tol, shared=g.shared)
+            for attempt in range(4):      # findByIP depends on Go map order when two leases hold one address: allow a few attempts
+                ok, info = confirm(ctx, binary, [dict(a="reset", cfg=cfgi, mode=g.mode, id=0, storm=0)] + script[1:], g.shape, g.mode, check, keys, tag=g.label + ".confirm", tol=tol, shared=g.shared)
+                if ok:
+                    break
             if not ok:
                 raise vlib.InfraError("property failure %s of behaviour %d (%s) did not reproduce: %s" % (keys, bad, g.label, info))
             for key in keys:
@@ -526,7 +529,10 @@ def check_group(ctx, binary, g, check, tol, stats):
             continue
         script = args_of(chunks[owner_i])
         cfgi = json.loads(chunks[owner_i][0])["cfg"]
-        ok, info = confirm(ctx, binary, [dict(a="reset", cfg=cfgi, mode=g.mode, id=0, storm=0)] + script[1:], g.shape, g.mode, check, [key], tag=g.label + ".confirm-kf", tol=tol, shared=g.shared)
+        for attempt in range(4):
+            ok, info = confirm(ctx, binary, [dict(a="reset", cfg=cfgi, mode=g.mode, id=0, storm=0)] + script[1:], g.shape, g.mode, check, [key], tag=g.label + ".confirm-kf", tol=tol, shared=g.shared)
+            if ok:
+                break
         if not ok:
             raise vlib.InfraError("known finding %s did not reproduce on re-execution (%s)" % (key, info))
         stats["known_reported"].add(key)
